@@ -72,7 +72,7 @@ class Universe:
         for fname, blocks in info['blocks'].items():
             for b in blocks:
                 fnpath = None
-                if b['directive'] in ('fn', 'loop', 'before', 'after', 'inline', 'inline-after', 'body-start', 'loop-body'):
+                if b['directive'] in ('fn', 'loop', 'before', 'after', 'inline', 'inline-after', 'body-start', 'loop-body', 'loop-end'):
                     fnpath = b['args'].split()[0]
                 if b['directive'] == 'fn':
                     m = re.search(r'nopanic=([A-Z0-9,]+)', b['args'])
@@ -276,7 +276,7 @@ def analyse(info, uni, vr):
 def fn_key_matches(fnkey, fname, fnpath):
     """does verus function name `lib::worker::Worker::send_file` (or impl&%N) belong to sidecar fn path?"""
     mod = fname[:-3]
-    return fnkey.startswith('lib::%s::' % mod) and fnkey.endswith('::' + last_seg(fnpath))
+    return fnkey.startswith('lib::%s::' % mod) and (fnkey.endswith('::' + last_seg(fnpath)) or fnkey.endswith('::_VERUS_VERIFIED_' + last_seg(fnpath)))
 
 
 def decide(pid, uni, ana, known):
@@ -332,6 +332,7 @@ def main():
     ap.add_argument('--tier', default=os.environ.get('VERIF_TIER', 'quick'))
     ap.add_argument('--keep', action='store_true', help='keep the scratch directory')
     ap.add_argument('--show', action='store_true', help='print every diagnostic')
+    ap.add_argument('--no-evidence', action='store_true', help='do not write evidence / replay files (self test)')
     a = ap.parse_args()
     tier = a.tier if a.tier in ('quick', 'thorough') else 'quick'
     seed = int(os.environ.get('VERIF_SEED', '0') or 0)
@@ -375,7 +376,7 @@ def main():
             for oid, (k, descs) in sorted(known_hit.items()):
                 print('KNOWN-FINDING: property=%s obligation=%s %s' % (pid, oid, k['text']))
             for oid, descs in sorted(new.items()):
-                path = write_replay(pid, oid, obl[oid], descs, vr)
+                path = write_replay(pid, oid, obl[oid], descs, vr) if not a.no_evidence else '-'
                 print('VIOLATION property=%s replay=%s obligation=%s no-failing-input-found' % (pid, path, oid))
                 for d in descs[:3]:
                     print('    %s at %s | %s' % (d['message'], (d.get('primary') or {}).get('where'), (d.get('clause') or {}).get('text', '')))
@@ -413,9 +414,10 @@ def main():
                 'wall_s': round(time.time() - t0, 2),
                 'violations': len(new),
             }
-            os.makedirs(os.path.join(VERIF, 'evidence'), exist_ok=True)
-            with open(os.path.join(VERIF, 'evidence', pid + '.json'), 'w') as f:
-                json.dump(ev, f, indent=1)
+            if not a.no_evidence:
+                os.makedirs(os.path.join(VERIF, 'evidence'), exist_ok=True)
+                with open(os.path.join(VERIF, 'evidence', pid + '.json'), 'w') as f:
+                    json.dump(ev, f, indent=1)
             if prc == 0:
                 print('%s: OK  %d/%d obligations discharged over %d functions (verus wall %.1fs)' % (pid, discharged, len(obl), len(hosts), vr['wall']))
             rc = max(rc, prc) if prc != 2 or rc == 0 else rc
